@@ -224,6 +224,7 @@ func run(c Case) (res vh.Result) {
 	expectRun := map[int]string{} // hook -> yes | no | open
 	cancelled := false             // a critical failure at before/leave: nothing later runs
 	firstFailMoment := -1
+	var critFailMoments []int // every moment at which a critical failure is reached (one if the transition is cancelled, possibly enter_ and after_)
 	anyCritical := false
 	openPass := map[string]bool{} // moment/pass in which a critical failure happened at enter/after: later weights of that pass are not claimed
 	for _, g := range groups {
@@ -252,6 +253,7 @@ func run(c Case) (res vh.Result) {
 			if firstFailMoment < 0 {
 				firstFailMoment = g.moment
 			}
+			critFailMoments = append(critFailMoments, g.moment)
 			if g.moment <= 1 {
 				cancelled = true
 			} else {
@@ -317,7 +319,15 @@ func run(c Case) (res vh.Result) {
 	if b.Result != "error" {
 		return fail("critical-failure-not-reported", "a critical hook failed at %s but %s reported %s", moments[firstFailMoment], c.T, b.Result)
 	}
-	if !strings.Contains(b.Error, moments[firstFailMoment]) {
+	named := false
+	for _, m := range critFailMoments {
+		// when critical hooks fail both at enter_<state> and at after_<event> the statement does not say which of the
+		// two failures the caller is told about: either trigger is accepted
+		if strings.Contains(b.Error, moments[m]) {
+			named = true
+		}
+	}
+	if !named {
 		return fail("error-does-not-name-trigger", "the error of %s does not name the failing trigger %s: %q", c.T, moments[firstFailMoment], b.Error)
 	}
 	if firstFailMoment <= 1 {
